@@ -81,6 +81,7 @@ SPEC = {
         'AITB.POMDP3.sawVal_sound', 'AITB.POMDP3.sumSaw_upper', 'AITB.POMDP3.promisingActSaw_upper', 'AITB.POMDP3.maxSaw_ge', 'AITB.POMDP3.bestPromisingSaw_upper',
         'AITB.POMDP3.sosa_row_reconstructs', 'AITB.POMDP3.gapmin_select_reach', 'AITB.POMDP3.gapmin_round_sound',
         'AITB.POMDP3.sawVal_isInterp', 'AITB.POMDP3.sumSaw_spec', 'AITB.POMDP3.promisingActSaw_is_poolAdd',
+        'AITB.POMDP3.lpInterp_isInterp', 'AITB.POMDP3.gapmin_ub_sound',
         'AITB.POMDP3.pbvi_warm_sound', 'AITB.POMDP3.pbvi_warm_value',
         'AITB.POMDP3.iterHV_eq', 'AITB.POMDP3.upperRefV_eq', 'AITB.POMDP3.lowerRefV_eq',
         'AITB.POMDP3.mW_valid', 'AITB.POMDP3.mW_ref_superSol', 'AITB.POMDP3.ΓW_sound',
